@@ -62,12 +62,23 @@ func c14NodeConfig(root string, port int, servers []string, shardTimeout int) cl
 		RpcPort:            port,
 		RpcTimeout:         5,
 		RpcRetries:         1,
-		Servers:            servers,
+		Servers:            c14OwnFirst(servers, "localhost:"+strconv.Itoa(port)),
 		ShardManager:       cluster.ShardManagerConfig{RootDir: c14ShardRoot(root), ShardTimeout: shardTimeout, MaxCacheSize: -1},
 		MaxShardSize:       1 << 30,
 		MaxShardPointCount: 4,
 		MaxSearchLimit:     75,
 	}
+}
+
+// c14OwnFirst: the same set of servers, rotated so that a node that is in the list names itself first (every node
+// of a deployment then has a different order: placement must be a function of the set)
+func c14OwnFirst(servers []string, me string) []string {
+	for i, s := range servers {
+		if s == me {
+			return append(append([]string{}, servers[i:]...), servers[:i]...)
+		}
+	}
+	return append([]string{}, servers...)
 }
 
 func c14WaitPort(port int, d time.Duration) error {
